@@ -40,6 +40,7 @@ fn build_section(s: &Section, seed: u8, block_version: u32) -> AuxPow {
     let parent_coinbase = match s.parent_cb {
         0 => Tx { version: 1, segwit: false, inputs: vec![TxIn::coinbase(vec![3, 1, 2, 3, 0xfa, 0xbe, b'm', b'm'])], outputs: vec![TxOut { value: 25, script: script::p2pkh(&script::h20(seed)) }], locktime: 0 },
         1 => Tx { version: 2, segwit: false, inputs: vec![TxIn::coinbase(vec![0x51; 100])], outputs: vec![TxOut { value: 25, script: vec![0x51; 0xfd] }, TxOut { value: 0, script: script::op_return(b"aux") }], locktime: 7 },
+        3 => Tx { version: 1, segwit: false, inputs: vec![TxIn::coinbase(vec![0x51; 70_000])], outputs: (0..300).map(|k| TxOut { value: k, script: vec![0x51; 40 + (k as usize % 7)] }).collect(), locktime: 1 },
         _ => {
             let mut i = TxIn::coinbase(vec![3, 9, 9, 9]);
             i.witness = vec![vec![0u8; 32], vec![], vec![1, 2, 3]];
@@ -88,6 +89,8 @@ pub fn run() -> Report {
                 }
             }
         }
+        // a parent coinbase far larger than any buffer: 70 000-byte scriptSig, 300 outputs
+        cases.push(Case { coin: cn, versions: vec![thr, thr - 1, thr + 5], section: Section { parent_cb: 3, cb_branch: 3, chain_branch: 2, mask: 7, parent_version: 0 }, label: "huge-parent-coinbase".into() });
         // long-branch sweeps (CompactSize boundary at 0xfd)
         let longs: Vec<usize> = if thorough { vec![5, 11, 32, 33, 0xfc, 0xfd, 0xfe, 1000] } else { vec![11, 33, 0xfd] };
         for &n in &longs {
